@@ -132,6 +132,12 @@ check("C15", "translation_validation",
       "TLA+ decoder machine run by TLC on the real serialiser's output (P3); fault enumeration on the real reader",
       "DESIGN.md section 6 C15")
 
+check("C09", "model_checking",
+      "Nesting.tla is a pushdown generator of nested inputs over eight constructs (parentheses, list, call arguments, index, set braces, lambda, indented block, string interpolation): every mixed stack of depth <= 3 (4 thorough), closed completely or truncated at any point, and depth ramps 1..1000 (3000) of each construct and of each alternating pair, with the outcome class the parser must show (balanced nesting up to 200 of the plain bracket constructs must parse; nothing may crash, abort or hang). Each input goes through the CLI (`erg --mode parse`) so that the real analysis thread and its stack are under test; random token sequences and truncations / single-token mutations of corpus files are added. One recorded finding: no nesting limit (stack overflow).",
+      "Trusted: TLC; the renderer of constructs in py/verif/props/c09.py; the debug build of the CLI (as the repository's tests use).",
+      "TLA+ pushdown generator enumerated by TLC; spec->impl replay through the CLI with outcome classification",
+      "DESIGN.md section 6 C09")
+
 NOT_APPLICABLE = {
     "C16": "static comparison of opcode/magic tables with external ground truth: no state or behaviour for a TLA+ specification to constrain (DESIGN.md section 7)",
     "C27": "data audit of ~150 declaration files against installed interpreters/typeshed: no behaviour to model in TLA+ (DESIGN.md section 7)",
